@@ -42,3 +42,30 @@ pub fn next_long_loop(ctx: &mut crate::report::Ctx) -> Option<(Scalar, u8)> {
     if first_valid_index(&s, 255) != Some(i) { ctx.broken("table of long-index-loop secrets does not check out against SHA3"); return None; }
     Some((s, i))
 }
+
+/// big-endian bytes of q
+const Q_BE: [u8; 32] = [0x73, 0xed, 0xa7, 0x53, 0x29, 0x9d, 0x7d, 0x48, 0x33, 0x39, 0xd8, 0x08, 0x09, 0xa1, 0xd8, 0x05, 0x53, 0xbd, 0xa4, 0x02, 0xff, 0xfe, 0x5b, 0xfe, 0xff, 0xff, 0xff, 0xff, 0x00, 0x00, 0x00, 0x01];
+
+/// for a secret whose index-0 digest is NOT canonical (>= q as a little-endian integer): the number of leading bits the
+/// digest shares with q; 0 if the digest is canonical
+pub fn top_bits_shared_with_q(secret: &Scalar) -> u32 {
+    let mut b = [0u8; 33];
+    b[..32].copy_from_slice(&secret.to_bytes());
+    let d = sha3_256(&b);
+    if bool::from(Scalar::from_bytes(&d).is_some()) { return 0; }
+    let mut n = 0u32;
+    for i in 0..32 {
+        let x = d[31 - i] ^ Q_BE[i];
+        if x == 0 { n += 8; } else { n += x.leading_zeros(); break; }
+    }
+    n
+}
+
+/// (counter, shared leading bits): secrets whose index-0 digest lies just above q — a canonicity test that compares only
+/// the leading bytes / the leading word with the modulus takes them for canonical
+/// (search range: counters 0 .. 1.2*10^10, at least 26 shared bits; the 48 closest, sorted by closeness)
+pub const NEAR_Q: &[(u64, u32)] = &[(3929189119, 32), (875262242, 29), (1749390467, 29), (3003509770, 29), (3191588445, 29), (3207548756, 29), (4325329680, 29), (5761345329, 29), (9842290771, 29), (11749244523, 29), (11768306665, 29), (11834098267, 29), (11905214135, 29), (1285674802, 28), (1730117641, 28), (2007457352, 28), (2249315546, 28), (2813734076, 28), (3687042515, 28), (4633817996, 28), (6835413183, 28), (7592705647, 28), (8706222702, 28), (9596728249, 28), (10089324196, 28), (10194226543, 28), (10217010885, 28), (11789921979, 28), (35603045, 26), (397403390, 26), (926214404, 26), (1217691742, 26), (1239293855, 26), (1239675704, 26), (1387748129, 26), (1608122212, 26), (1621079491, 26), (1786984828, 26), (1949063865, 26), (2024399751, 26), (2235067637, 26), (2277251336, 26), (2431620038, 26), (2531808606, 26), (2549525120, 26), (2607240848, 26), (2850844560, 26), (3066654856, 26)];
+
+pub fn near_q_secrets() -> Vec<(Scalar, u32)> {
+    NEAR_Q.iter().filter_map(|&(k, n)| { let s = candidate(k); if top_bits_shared_with_q(&s) == n { Some((s, n)) } else { None } }).collect()
+}
